@@ -4242,16 +4242,18 @@ static gboolean priv_add_remote_candidate (
      */
     pair = priv_get_highest_priority_nominated_pair (agent,
         stream_id, component_id);
-    if (pair &&
+    if (pair && pair->valid &&
+        component->selected_pair.local != NULL &&
+        component->selected_pair.remote != NULL &&
         (pair->local != (NiceCandidate *) component->selected_pair.local ||
          pair->remote != (NiceCandidate *) component->selected_pair.remote)) {
-      /* If we have (at least) one pair with the nominated flag set, it
-       * implies that this pair (or another) is set as the selected pair
-       * for this component. In other words, this is really an *update*
-       * of the selected pair.
+      /* A valid pair with the nominated flag set implies that this pair
+       * (or another) is set as the selected pair for this component. In
+       * other words, this is really an *update* of the selected pair.
+       * (The compatibility modes other than RFC 5245 and OC2007R2 set the
+       * nominated flag when the peer's check arrives, before the pair is
+       * valid: such a pair implies nothing.)
        */
-      g_assert (component->selected_pair.local != NULL);
-      g_assert (component->selected_pair.remote != NULL);
       nice_debug ("Agent %p : Updating selected pair with higher "
           "priority nominated pair %p.", agent, pair);
       conn_check_update_selected_pair (agent, component, pair);
